@@ -108,6 +108,10 @@ Qed.
 
 
 Notation star := (Vote.star n q).
+(* every model step is matched by at most ONE abstract step *)
+Definition step01 (a a' : Vote.sys) : Prop := a' = a \/ Vote.step n q a a'.
+Lemma step01_star a a' : step01 a a' -> star a a'.
+Proof. intros [->|H]; [constructor|apply Vote.star_one; exact H]. Qed.
 Definition old (a : Vote.sys) (i : N) := Vote.nodes a (N.to_nat i).
 
 Lemma id_lt i : i < n_nodes cfg -> (N.to_nat i < n)%nat.
@@ -120,12 +124,12 @@ Lemma sim_demote s a i x out :
   (Vote.term (old a i) <= Vote.term (absn x))%nat ->
   (Vote.term (absn x) = Vote.term (old a i) -> Vote.voted (absn x) = Vote.voted (old a i)) ->
   (forall d m0, In (d, m0) out -> absm (i, d, m0) = [] /\ d < n_nodes cfg) ->
-  exists a', star a a' /\ R (upd_node s i x out) a'.
+  exists a', step01 a a' /\ R (upd_node s i x out) a'.
 Proof.
   intros HR Hi Hrl Ht Hv Ho.
   exists (Vote.mkS (Vote.upd (Vote.nodes a) (N.to_nat i) (absn x)) (Vote.msgs a) (Vote.cast a) (Vote.leaders a)).
   split.
-  - apply Vote.star_one. destruct (absn x) as [t' vd r vs] eqn:E. cbn in Hrl. subst r.
+  - right. destruct (absn x) as [t' vd r vs] eqn:E. cbn in Hrl. subst r.
     apply Vote.s_demote; [apply id_lt; exact Hi|exact Ht|exact Hv].
   - eapply R_upd; eauto; cbn [Vote.nodes Vote.msgs]; auto.
     + intros d m0 m Hin Hm. destruct (Ho _ _ Hin) as [E _]. rewrite E in Hm. contradiction.
@@ -139,7 +143,7 @@ Lemma sim_timeout s a i x out :
   absn x = Vote.mk (S (Vote.term (old a i))) (Some (N.to_nat i)) Vote.Candidate [N.to_nat i] ->
   (forall d m0, In (d, m0) out -> d < n_nodes cfg /\
        exists lli llt, m0 = RV (term x) i lli llt) ->
-  exists a', star a a' /\ R (upd_node s i x out) a'.
+  exists a', step01 a a' /\ R (upd_node s i x out) a'.
 Proof.
   intros HR Hi Hx Ho.
   set (extra := map (fun dm => Vote.RV (S (Vote.term (old a i))) (N.to_nat i) (N.to_nat (fst dm))) out).
@@ -147,7 +151,7 @@ Proof.
                    (extra ++ Vote.msgs a)
                    ((N.to_nat i, S (Vote.term (old a i)), N.to_nat i) :: Vote.cast a) (Vote.leaders a)).
   split.
-  - apply Vote.star_one. apply Vote.s_timeout; [apply id_lt; exact Hi|].
+  - right. apply Vote.s_timeout; [apply id_lt; exact Hi|].
     intros m Hm. unfold extra in Hm. apply in_map_iff in Hm. destruct Hm as [dm [<- _]]. eexists. reflexivity.
   - eapply R_upd; eauto; cbn [Vote.nodes Vote.msgs].
     + intros j. rewrite Hx. reflexivity.
@@ -224,11 +228,11 @@ Qed.
 Lemma sim_rvr s a src dst t g :
   R s a -> src < n_nodes cfg -> dst < n_nodes cfg ->
   In (Vote.RVR (N.to_nat t) g (N.to_nat src) (N.to_nat dst)) (Vote.msgs a) ->
-  exists a', star a a' /\ R (upd_node s dst (h_rvr cfg dst (nth_node (nodes s) dst) src t g) []) a'.
+  exists a', step01 a a' /\ R (upd_node s dst (h_rvr cfg dst (nth_node (nodes s) dst) src t g) []) a'.
 Proof.
   intros HR Hsrc Hdst Hm.
   pose proof (Vote.s_recv_rvr n q a (N.to_nat dst) (N.to_nat t) g (N.to_nat src) (id_lt _ Hdst) (id_lt _ Hsrc) Hm) as St.
-  cbv zeta in St. eexists. split; [apply Vote.star_one; exact St|].
+  cbv zeta in St. eexists. split; [right; exact St|].
   pose proof (absn_old s a dst HR Hdst) as Hold. unfold old in Hold. rewrite Hold.
   set (nd := nth_node (nodes s) dst) in *.
   unfold h_rvr. change (Vote.rl (absn nd)) with (absr (rl nd)).
@@ -253,10 +257,10 @@ Proof. unfold absn. intros -> -> -> ->. reflexivity. Qed.
 Ltac absn_same Er := apply absn_eq; first [reflexivity | symmetry; exact Er | exact Er].
 
 (* ---------------- the simulation, one global op at a time ---------------- *)
-Theorem sim_step : forall s a o, R s a -> exists a', star a a' /\ R (fst (gstep cfg ru s o)) a'.
+Theorem sim_step : forall s a o, R s a -> exists a', step01 a a' /\ R (fst (gstep cfg ru s o)) a'.
 Proof.
   intros s a o HR.
-  assert (Stay : exists a', star a a' /\ R s a') by (exists a; split; [constructor|exact HR]).
+  assert (Stay : exists a', step01 a a' /\ R s a') by (exists a; split; [left; reflexivity|exact HR]).
   destruct o as [i|i|i|i|i p ok|k ok|i]; cbn [gstep].
   - (* GElect *)
     unfold valid_id. destruct (N.ltb_spec i (n_nodes cfg)) as [Hi|]; cbn [fst]; [|exact Stay].
@@ -265,7 +269,7 @@ Proof.
     + intros d m0 H. apply (rv_msgs_ok _ _ _ _ H).
   - (* GPreVote: invisible to the voting abstraction *)
     unfold valid_id. destruct (N.ltb_spec i (n_nodes cfg)) as [Hi|]; cbn [fst]; [|exact Stay].
-    exists a. split; [constructor|]. apply R_stutter; auto.
+    exists a. split; [left; reflexivity|]. apply R_stutter; auto.
     intros d m0 H. unfold pv_msgs in H. destruct (last_info _) as [lli llt].
     apply in_map_iff in H. destruct H as [p [E Hp]]. injection E as <- <-. split; [reflexivity|apply (peers_valid i p Hp)].
   - (* GRequestVotes *)
@@ -274,7 +278,7 @@ Proof.
     set (nd := nth_node (nodes s) i) in *.
     set (extra := map (fun dm => Vote.RV (N.to_nat (term nd)) (N.to_nat i) (N.to_nat (fst dm))) (rv_msgs cfg i nd)).
     exists (Vote.mkS (Vote.nodes a) (extra ++ Vote.msgs a) (Vote.cast a) (Vote.leaders a)). split.
-    + apply Vote.star_one. apply Vote.s_more_rv. intros m Hm. unfold extra in Hm.
+    + right. apply Vote.s_more_rv. intros m Hm. unfold extra in Hm.
       apply in_map_iff in Hm. destruct Hm as [dm [<- _]]. eauto.
     + eapply R_upd; eauto; cbn [Vote.nodes Vote.msgs].
       * intros j. unfold Vote.upd. destruct (Nat.eqb_spec j (N.to_nat i)) as [->|]; [|reflexivity].
@@ -286,13 +290,13 @@ Proof.
       * intros d t c x0 y Hin. destruct (rv_msgs_ok _ _ _ _ Hin) as [_ [lli [llt E]]]. injection E as _ <- _ _. reflexivity.
   - (* GHeartbeat: AppendEntries are invisible *)
     unfold valid_id. destruct (N.ltb_spec i (n_nodes cfg)) as [Hi|]; cbn [fst]; [|exact Stay].
-    exists a. split; [constructor|]. apply R_stutter; auto.
+    exists a. split; [left; reflexivity|]. apply R_stutter; auto.
     intros d m0 H. unfold heartbeat_msgs in H. destruct (rl _); try contradiction.
     apply in_map_iff in H. destruct H as [p [E Hp]]. destruct (entries_for _ p) as [[pi pt] es].
     injection E as <- <-. split; [reflexivity|apply (peers_valid i p Hp)].
   - (* GPropose *)
     unfold valid_id. destruct (N.ltb_spec i (n_nodes cfg)) as [Hi|]; cbn [fst]; [|exact Stay].
-    exists a. split; [constructor|]. apply R_stutter; auto; [|intros ? ? []].
+    exists a. split; [left; reflexivity|]. apply R_stutter; auto; [|intros ? ? []].
     unfold propose. destruct (rl (nth_node (nodes s) i)) eqn:Er; try reflexivity.
     destruct ok; [|reflexivity]. unfold absn. cbn. rewrite Er. reflexivity.
   - (* GDeliver *)
@@ -310,7 +314,7 @@ Proof.
       destruct (h_rv dst nd t src lli llt ok) as [nd' r] eqn:Eh.
       destruct (h_rv_abs _ _ _ _ _ _ _ _ _ Eh) as [okA [Hn' [tt [Hr Htt]]]]. cbv zeta in Hn'.
       pose proof (Vote.s_recv_rv n q a (N.to_nat dst) (N.to_nat t) (N.to_nat src) okA (id_lt _ Hdst) Hm) as St.
-      cbv zeta in St. eexists. split; [apply Vote.star_one; exact St|].
+      cbv zeta in St. eexists. split; [right; exact St|].
       unfold old in Hold. rewrite Hold in *.
       eapply R_upd; eauto; cbn [Vote.nodes Vote.msgs].
       * intros j. rewrite Hn'. reflexivity.
@@ -323,11 +327,11 @@ Proof.
       apply sim_rvr; auto. eapply (R_msgs _ _ HR); [exact Ek|]. cbn. left. reflexivity.
     + (* PreVote: no state change *)
       unfold h_pv. destruct (last_info (log nd)) as [mli mlt].
-      exists a. split; [constructor|]. apply R_stutter; auto.
+      exists a. split; [left; reflexivity|]. apply R_stutter; auto.
       intros d m0 [E|[]]. injection E as <- <-. split; [reflexivity|exact Hsrc].
     + (* PreVoteResponse *)
       unfold h_pvr. destruct (in_prevote nd); cbn [negb].
-      2:{ exists a. split; [constructor|]. apply R_stutter; auto. intros ? ? []. }
+      2:{ exists a. split; [left; reflexivity|]. apply R_stutter; auto. intros ? ? []. }
       destruct (N.ltb_spec (term nd) t) as [Hlt|Hge].
       * apply sim_demote; auto; try (intros ? ? []).
         -- rewrite Hold. cbn. lia.
@@ -336,8 +340,8 @@ Proof.
         -- destruct (N.leb (quorum cfg) (llen (prevotes nd ++ [src]))).
            ++ apply sim_timeout; auto; [|intros ? ? []].
               rewrite Hold. unfold start_election, absn. cbn. f_equal. lia.
-           ++ exists a. split; [constructor|]. apply R_stutter; auto. intros ? ? [].
-        -- exists a. split; [constructor|]. apply R_stutter; auto. intros ? ? [].
+           ++ exists a. split; [left; reflexivity|]. apply R_stutter; auto. intros ? ? [].
+        -- exists a. split; [left; reflexivity|]. apply R_stutter; auto. intros ? ? [].
     + (* AppendEntries *)
       unfold h_ae.
       assert (Ho : forall (tt : N) (sc : bool) (mi : N) d m0, In (d, m0) [(src, AER tt sc dst mi)] ->
@@ -353,14 +357,14 @@ Proof.
         -- match goal with |- context [if ?c then _ else _] => destruct c end.
            ++ apply sim_demote; auto; [rewrite Hold; cbn; lia|rewrite Hold; cbn; reflexivity|apply Ho].
            ++ apply sim_demote; auto; [rewrite Hold; cbn; lia|rewrite Hold; cbn; reflexivity|apply Ho].
-        -- exists a. split; [constructor|]. apply R_stutter; auto. apply Ho.
+        -- exists a. split; [left; reflexivity|]. apply R_stutter; auto. apply Ho.
     + (* AppendEntriesResponse *)
       unfold nd in *. clear nd. set (nd := nth_node (nodes s) dst) in *.
       unfold h_aer. destruct (rl nd) eqn:Er;
-        try (exists a; split; [constructor|]; apply R_stutter; auto; intros ? ? []).
+        try (exists a; split; [left; reflexivity|]; apply R_stutter; auto; intros ? ? []).
       destruct (N.ltb_spec (term nd) t) as [Hlt|Hge].
       * apply sim_demote; auto; try (intros ? ? []); try rewrite Hold; cbn; try rewrite Er; auto; lia.
-      * exists a. split; [constructor|]. apply R_stutter; auto; [|intros ? ? []].
+      * exists a. split; [left; reflexivity|]. apply R_stutter; auto; [|intros ? ? []].
         destruct (stale_ack_ignored ru && N.ltb t (term nd)); [reflexivity|].
         destruct (lvs nd) as [ls|]; [|reflexivity].
         destruct succ; [|absn_same Er].
@@ -382,7 +386,7 @@ Lemma sim_run_from : forall ops s a, R s a -> exists a', star a a' /\ R (run_fro
 Proof.
   induction ops as [|o ops IH]; intros s a HR.
   - exists a. split; [constructor|exact HR].
-  - cbn [run_from fold_left]. destruct (sim_step s a o HR) as [a1 [S1 R1]].
+  - cbn [run_from fold_left]. destruct (sim_step s a o HR) as [a1 [S1 R1]]. apply step01_star in S1.
     destruct (IH _ _ R1) as [a2 [S2 R2]]. exists a2. split; [eapply Vote.star_trans; eauto|exact R2].
 Qed.
 
